@@ -198,6 +198,16 @@ pub proof fn lemma_balance_agrees(v: Seq<Coin>, d: Seq<char>, c: Coin)
     lemma_amt_unique(v, d);
 }
 
+// ... and a stored balance IS normalised (bank_wf), so the Balance query, the AllBalances query and the supply agree
+pub proof fn lemma_wf_balance_agrees(v: Seq<Coin>, d: Seq<char>, c: Coin)
+    requires nb_wf(v), balance_coin(v, d, c)
+    ensures /*VXCLAUSE C09.lemma.wf_balance_agrees*/ (c.amount.u == amt(v, d) && c.denom@ == d)
+{
+    axiom_nb_wf_unique(v);
+    assert(denoms_unique(v));
+    lemma_balance_agrees(v, d, c);
+}
+
 //@ impl_open src/bank.rs :: Module for BankKeeper
 //@   replace "impl Module for BankKeeper" => "impl BankKeeper"
 //@ end
